@@ -392,3 +392,31 @@ def run(ctx):
                "the journal is synced before tables are made durable" if ok_b
                else "tables are fsynced while the journal is only flushed to the OS: after a power loss the journal can end before a batch of which one keyspace's part is already in a table (batch recovered partially)",
                fn.loc(eff[0]))
+
+    # ---- R-C03.9 a memtable is sealed only after the journal buffer was written out.  lsm-tree's flush takes ALL sealed
+    # memtables of the keyspace, whenever they were sealed; the worker's own barrier (R-C03.8) only covers what was sealed
+    # before it looked.  With manual journal persist (or a batch without durability) a batch committed after that barrier,
+    # whose keyspace is rotated before the worker collects, would get one keyspace's part into a table while its journal
+    # record is still in the process buffer.  Sealing happens under the journal lock: the buffer must be written out there.
+    seal_sites = 0
+    for fid, fn in sorted(F.fns.items()):
+        if fid.startswith("recovery::") or R.in_journal_module(fid) or fn.kind == "closure":
+            continue  # recovery seals what it has just read back FROM the journal
+        seals = [b for b, t in fn.calls() if A.cname(t).endswith("AbstractTree>::rotate_memtable") or A.cname(t) == "lsm_tree::AbstractTree::rotate_memtable"]
+        if not seals:
+            continue
+        gs = R.j_guards(ctx, fn)
+        flushers = [b for b, t in fn.calls() if A.cname(t) in (R.PERSIST, R.WRITER + "::pos", R.JOURNAL_PERSIST)]
+        for sb in seals:
+            seal_sites += 1
+            held = bool(gs) and any(A.must_held_at(fn, g, sb)[0] for g in gs)
+            wrote = bool(flushers) and sb not in A.reach(fn, [0], avoid=flushers)
+            # and the write-out happens under the same lock hold
+            under = wrote and held and all(any(A.must_held_at(fn, g, fb)[0] for g in gs) for fb in flushers if A.dominates(fn, fb, sb))
+            ok = held and wrote and under
+            ctx.ob("R-C03.9", fn, "journal-buffer-written-out-before-the-memtable-is-sealed", ok,
+                   "the journal writer's buffer is written out (under the journal lock) before rotate_memtable seals the memtable" if ok else
+                   "%s seals a memtable %s: the flush worker collects every sealed memtable, so a table can hold items of a batch whose journal record never left the process — a process crash then recovers one keyspace's part of the batch only (manual_journal_persist / durability None)" % (
+                       fid, "without holding the journal lock" if not held else "while journal records of its items may still sit in the writer's buffer"),
+                   fn.loc(sb))
+    ctx.floor("R-C03.9", "memtable seal sites outside recovery", seal_sites, 1)
